@@ -266,6 +266,13 @@ Section Inversion.
     intros H; inversion H; subst. auto.
   Qed.
 
+  Lemma pnext_LLinkOne s i s' :
+    pnext G outp s (LLinkOne i) = Some s' -> p_main s = MLinks i /\ s' = s.
+  Proof.
+    unfold pnext. destruct (p_main s); try discriminate.
+    destruct (Nat.eqb_spec i i0); [|discriminate]. intros H; inversion H; subst. auto.
+  Qed.
+
   Lemma pnext_LLinks s i s' :
     pnext G outp s (LLinks i) = Some s' ->
     p_main s = MLinks i /\
@@ -585,6 +592,7 @@ Proof.
   intros Hi H. destruct l.
   - eapply inv_t_LRun; eauto.
   - eapply inv_t_LSpawn; eauto.
+  - apply pnext_LLinkOne in H. destruct H as (_ & ->). exact Hi.
   - eapply inv_t_LLinks; eauto.
   - eapply inv_t_LRecv; eauto.
   - eapply inv_t_LPurge; eauto.
@@ -627,6 +635,7 @@ Proof.
   - apply pnext_LRun in H. destruct H as (Em & ->). rewrite Em in Hm.
     unfold inv_f; simpl; auto.
   - apply pnext_LSpawn in H. destruct H as (Em & _). rewrite Em in Hm. contradiction.
+  - apply pnext_LLinkOne in H. destruct H as (_ & ->). unfold inv_f; auto.
   - apply pnext_LLinks in H. destruct H as (Em & ->). rewrite Em in Hm.
     unfold inv_f, loop_head, after_loop; simpl.
     split; [auto|]. split; [auto|]. destruct (Nat.ltb_spec (S i) G); auto.
@@ -864,7 +873,7 @@ End Theorems.
     receive: the exclusion in [no_stuck_state] is necessary *)
 Theorem stuck_when_no_generations (G : nat) (outp : bool) :
   G = 0 -> outp = true -> forall l, pnext 0 true (pinit 0 true) l = None.
-Proof. intros _ _ l. destruct l as [i|i|i|g t|g t|g|t|]; try reflexivity; destruct g; reflexivity. Qed.
+Proof. intros _ _ l. destruct l as [i|i|i|i|g t|g t|g|t|]; try reflexivity; destruct g; reflexivity. Qed.
 
 (** no goroutine is left behind: when main has left its final loop every writer
     has returned *)
@@ -921,7 +930,7 @@ Section Schedule.
   Proof.
     intros Hr H (Hran & Hlnk & Hwr).
     pose proof (main_idx_lt s Hr) as Hidx.
-    destruct l as [i|i|i|g t|g t|g|t|]; unfold sched_run, action_of, foldM, sched_rel.
+    destruct l as [i|i|i|i|g t|g t|g|t|]; unfold sched_run, action_of, foldM, sched_rel.
     - apply pnext_LRun in H. destruct H as (Em & ->).
       unfold runs_done, links_done in *. rewrite Em in *.
       unfold sched_next. rewrite Hran, Hlnk, Nat.eqb_refl.
@@ -929,6 +938,10 @@ Section Schedule.
       eexists; split; [reflexivity|]. simpl. destruct outp; simpl; auto.
     - apply pnext_LSpawn in H. destruct H as (Em & _ & ->).
       unfold runs_done, links_done in *. rewrite Em in *. simpl.
+      exists c. auto.
+    - apply pnext_LLinkOne in H. destruct H as (Em & ->).
+      unfold runs_done, links_done in *. rewrite Em in *.
+      unfold sched_next. rewrite Hran, Hlnk, !Nat.eqb_refl. simpl.
       exists c. auto.
     - apply pnext_LLinks in H. destruct H as (Em & ->).
       unfold runs_done, links_done in *. rewrite Em in *.
